@@ -10,7 +10,9 @@ GENERATORS = ['gen_codes']          # C12_Model uses the C05 model of BioSeq.rc,
 RULE = ('exhaustive strings over {A,T,G} up to length 6 (quick) / 9 (thorough; 29 523 strings x 3 configurations: default fwd, default '
         'both, one random mode) plus random DNA/RNA up to 600 columns assembled from random bases, injected start/stop codons on both '
         'strands and gap runs (also inside codons); rf in {fwd,bwd,both,int,tuple,list} x need_start in {always,once,never} x need_stop x '
-        'minlen; seq- and basket-level calls; plus 350 (quick) / 2 500 (thorough) HISTORIES on one living BioSeq object: repeated and '
+        'minlen; seq- and basket-level calls; a gap-option stream (400 quick / 4 000 thorough): gap="." and gap=".-" (and default) on texts '
+        'whose gap columns are written "." (also inside codons), biased to backward frames (bwd, both, negative ints, mixed tuples), '
+        'all modes, compared with the model on the text with "." rewritten to "-" and with the degapped-sequence oracle; plus 350 (quick) / 2 500 (thorough) HISTORIES on one living BioSeq object: repeated and '
         'fresh-object searches, other rf orders / strand mixes / options, in-place edits (item and slice assignment, str.replace, data, '
         'reverse, rc, complement, rc through a basket holding the object twice) followed by a search, mutation of earlier results '
         '(pop, clear, append, reverse, location/rf/strand edits), other sequences with the same id and length, a basket holding the '
@@ -21,6 +23,9 @@ TRUSTED = ['CPython re (finditer over the rewritten codon alternations; modelled
            'modelled: find_orfs, _inds2orf, the part of match()/matchall() used by find_orfs with the default start/stop patterns and '
            'gap="-" (cane.py:167-343), BioSeq.rc via the C05 model; BioSeq/BioBasket.find_orfs glue is inside the comparison']
 ASSUMPTIONS = ['Python str restricted to Latin-1 code points; sequences over ACGTU and "-"',
+               'the Coq model has one gap symbol "-": find_orfs(gap=".") / (gap=".-") on a text gapped with "." is compared with the '
+               'model (and the first-principles oracle) on the same text with "." rewritten to "-"; that sugar treats the gap symbols '
+               'alike (regex class, gap positions, rc() keeping ".", rstrip) is exactly what these cases test',
                'custom start/stop regexes, gap characters other than "-" and ftype/seqid bookkeeping are outside the model',
                'domain: sequences over ACGTU-, rf tuples/lists without repeated or out-of-range frames, minlen >= 0; every '
                'need_start/need_stop mode is inside the domain']
@@ -33,11 +38,69 @@ COMP = {'A': 'T', 'C': 'G', 'G': 'C', 'T': 'A', 'U': 'A', '-': '-'}
 
 # ----------------------------------------------------------------------------- cases
 
-def _mk(s, rf='fwd', need_start='always', need_stop=True, minlen=0, basket=False, rf_tuple=False):
+def _mk(s, rf='fwd', need_start='always', need_stop=True, minlen=0, basket=False, rf_tuple=False, gap='-'):
     c = {'s': s, 'rf': rf, 'need_start': need_start, 'need_stop': need_stop, 'minlen': minlen, 'basket': basket}
     if isinstance(rf, list):
         c['rf_tuple'] = rf_tuple
+    if gap != '-':
+        c['gap'] = gap          # gap='.' or '.-': gap columns written '.'; compared with the model on the text with '.' -> '-'
     return c
+
+
+GAPS = ('-', '.', '.-')
+
+
+def _norm_s(case):
+    """the model knows one gap symbol: a text gapped with '.' (gap='.' or '.-') is presented to it with '.' rewritten to '-'"""
+    g = case.get('gap', '-')
+    return case['s'].replace('.', '-') if isinstance(g, str) and '.' in g else case['s']
+
+
+def _with_gap(rng, s, gap):
+    """rewrite the '-' columns of a generated text for the given gap option"""
+    if gap == '.':
+        return s.replace('-', '.')
+    if gap == '.-':
+        return ''.join(('.' if ch == '-' and rng.random() < 0.6 else ch) for ch in s)
+    return s
+
+
+def _gen_gap_stream(rng, n):
+    """gap='.' / '.-' (and default) on texts with gap columns, biased to backward frames"""
+    out = []
+    for _ in range(n):
+        L = rng.choice([6, 9, 12, 15, 20, 20, 30, 45, 60, 90])
+        while True:
+            s = _rand_seq(rng, L)
+            if all(ch in 'ACGTU-' for ch in s):
+                break
+        if '-' not in s or rng.random() < 0.7:         # make sure there are gap columns, also inside codons
+            t = list(s)
+            for _k in range(rng.randint(1, 1 + len(t) // 4)):
+                t.insert(rng.randrange(len(t) + 1), '-' * rng.choice([1, 1, 2, 3]))
+            s = ''.join(t)
+        gap = rng.choice(['.', '.', '.', '.-', '.-', '-'])
+        x = rng.random()
+        if x < 0.35:
+            rf, tup = rng.choice(['bwd', 'both']), False
+        elif x < 0.55:
+            rf, tup = rng.choice([-1, -2, -3]), False
+        elif x < 0.9:
+            fr = [0, 1, 2, -1, -2, -3]
+            rng.shuffle(fr)
+            fr = fr[:rng.randint(1, 6)]
+            if all(f >= 0 for f in fr):
+                fr.append(rng.choice([-1, -2, -3]))
+            rf, tup = fr, rng.random() < 0.6
+        else:
+            rf, tup = 'fwd', False
+        if rng.random() < 0.55:
+            cfg = dict(need_start='always', need_stop=True, minlen=0)
+        else:
+            cfg = dict(need_start=rng.choice(['always', 'once', 'never']), need_stop=rng.random() < 0.6,
+                       minlen=rng.choice([0, 0, 0, 3, 6, 9]))
+        out.append(_mk(_with_gap(rng, s, gap), rf=rf, rf_tuple=tup, gap=gap, basket=rng.random() < 0.05, **cfg))
+    return out
 
 
 def _rand_rf(rng):
@@ -131,9 +194,18 @@ def gen_cases(rng, tier):
         s = _rand_seq(rng, n)
         cfg = _rand_cfg(rng) if rng.random() < 0.7 else dict(rf=rng.choice(['fwd', 'bwd', 'both']))
         cases.append(_mk(s, basket=rng.random() < 0.1, **cfg))
+    for g in ('.', '.-'):
+        cases.append(_mk('CC.TAG.GGTT..TCA.TGG', 'both', gap=g))
+        cases.append(_mk('.A.TGC..CCTAAT.TAGG.GCAT.', 'both', need_start='once', need_stop=False, gap=g))
+    cases += _gen_gap_stream(rng, 4000 if tier == 'thorough' else 400)
     for _ in range(2500 if tier == 'thorough' else 350):
         cases.append(_gen_hist(rng))
     return cases
+
+
+def search_cases(broken, rng):
+    """a theorem / generated table / tie is red and no sampled case failed: directed stream (implementation + oracle only)"""
+    return _gen_gap_stream(rng, 1500) + [_mk(_rand_seq(rng, rng.choice([9, 20, 45])), **_rand_valid_cfg(rng)) for _ in range(500)]
 
 
 # ----------------------------------------------------------------------------- implementation
@@ -152,6 +224,8 @@ def _kwargs(case, minlen=None):
     m = case['minlen'] if minlen is None else minlen
     if m != 0:
         kw['minlen'] = m
+    if case.get('gap', '-') != '-':
+        kw['gap'] = case['gap']
     return kw
 
 
@@ -210,14 +284,16 @@ def _rf_term(case):
 
 def _one_model_term(case):
     return 'out (run_C12 %s %s %s %s %s)' % (_rf_term(case), coq_N(NS.get(case['need_start'], 0)), coq_bool(bool(case['need_stop'])),
-                                              coq_z(int(case['minlen'])), coq_bs(case['s']))
+                                              coq_z(int(case['minlen'])), coq_bs(_norm_s(case)))
 
 
 def _one_split_model(case, m):
     ok = isinstance(m, list) and len(m) == 2
     if not ok:
         return False, [False, m]
-    wf = bool(m[0]) and case['need_start'] in NS and isinstance(case['need_stop'], bool)
+    g = case.get('gap', '-')
+    wf = (bool(m[0]) and case['need_start'] in NS and isinstance(case['need_stop'], bool) and g in GAPS
+          and not (g == '.' and '-' in case['s']))      # with gap='.' a '-' would be a residue outside the alphabet
     return wf, [wf, m[1]]
 
 
@@ -293,7 +369,8 @@ def _mapped(s, orfs):
 def _one_spec(case, got):
     if _is_exc(got):
         return 'raised %s' % got['e']
-    s, L = case['s'], len(case['s'])
+    s_orig = case['s']
+    s, L = _norm_s(case), len(case['s'])         # the reference computations see one gap symbol
     frames = _frames(case['rf'])
     ns, need_stop, minlen = case['need_start'], case['need_stop'], case['minlen']
     default = ns == 'always' and need_stop
@@ -306,7 +383,7 @@ def _one_spec(case, got):
             return 'strand/rf metadata (%s, %s) do not identify a requested frame' % (strand, f)
     base = got
     if minlen > 0:                               # minlen is a pure filter on the result for minlen=0
-        base, err = _call_safe(s, _kwargs(case, minlen=0))
+        base, err = _call_safe(s_orig, _kwargs(case, minlen=0))
         if err:
             return 'raised %s with minlen=0' % err
         if got != [o for o in base if o[1] - o[0] >= minlen]:
@@ -343,7 +420,7 @@ def _one_nontrivial(case, got):
     if _is_exc(got) or not got:
         return None
     strands = ''.join(sorted(set(o[2] for o in got)))
-    return [case['need_start'], case['need_stop'], '-' in case['s'], strands, case['minlen'] > 0]
+    return [case['need_start'], case['need_stop'], '-' in _norm_s(case), strands, case['minlen'] > 0, case.get('gap', '-')]
 
 
 def _one_histkey(case, got):
@@ -352,7 +429,7 @@ def _one_histkey(case, got):
     k = ['len=' + ('0-2' if n < 3 else '3-9' if n <= 9 else '10-99' if n < 100 else '100+'),
          'need_start=' + str(case['need_start']), 'need_stop=' + str(case['need_stop']),
          'rf=' + (rf if isinstance(rf, str) else 'int' if isinstance(rf, int) else 'tuple' if case.get('rf_tuple') else 'list'),
-         'gaps' if '-' in case['s'] else 'gapfree', 'minlen>0' if case['minlen'] else 'minlen=0']
+         'gaps' if '-' in _norm_s(case) else 'gapfree', 'minlen>0' if case['minlen'] else 'minlen=0', 'gap=' + str(case.get('gap', '-'))]
     if _is_exc(got):
         k.append('raises=' + got['e'])
     else:
@@ -422,7 +499,7 @@ def _apply_edit(cur, st):
 
 def _cfg_case(s, cfg):
     return _mk(s, rf=cfg.get('rf', 'fwd'), need_start=cfg.get('need_start', 'always'), need_stop=cfg.get('need_stop', True),
-               minlen=cfg.get('minlen', 0), rf_tuple=cfg.get('rf_tuple', False))
+               minlen=cfg.get('minlen', 0), rf_tuple=cfg.get('rf_tuple', False), gap=cfg.get('gap', '-'))
 
 
 def _hist_plan(case):
@@ -456,9 +533,15 @@ def _rand_valid_seq(rng, n):
 
 def _gen_hist(rng):
     n = rng.choice([6, 9, 12, 15, 20, 30, 45])
-    s = _rand_valid_seq(rng, n)
+    gap = rng.choice(['-', '-', '-', '.', '.-'])
+    s = _with_gap(rng, _rand_valid_seq(rng, n), gap)
     steps = []
-    cfg = _rand_valid_cfg(rng)
+    def _cfgg():
+        c = _rand_valid_cfg(rng)
+        if gap != '-':
+            c['gap'] = gap
+        return c
+    cfg = _cfgg()
     steps.append({'op': 'find', 'cfg': cfg})
     for _ in range(rng.randint(3, 8)):
         x = rng.random()
@@ -475,27 +558,29 @@ def _gen_hist(rng):
                 cfg = dict(cfg, rf=list(reversed(cfg['rf'])))
                 steps.append({'op': 'find', 'cfg': cfg})
         elif x < 0.44:                                # (b) other options on the same object
-            cfg = _rand_valid_cfg(rng)
+            cfg = _cfgg()
             steps.append({'op': 'find', 'cfg': cfg})
         elif x < 0.66:                                # (c) in-place edit that keeps the length, then search again
             op = rng.choice(['setitem', 'setslice', 'replace', 'data', 'reverse', 'rc', 'complement', 'basket_rc'])
             st = {'op': op}
             if op == 'setitem':
-                st.update(i=rng.randrange(100), ch=rng.choice('ACGT-'))
+                st.update(i=rng.randrange(100), ch=rng.choice('ACGT' + ('-' if gap != '.' else '.')))
             elif op == 'setslice':
-                st.update(i=rng.randrange(100), t=rng.choice(['ATG', 'TAA', 'TGA', 'CAT', 'TTA', '---', 'A-T-G', 'C']))
+                st.update(i=rng.randrange(100), t=_with_gap(rng, rng.choice(['ATG', 'TAA', 'TGA', 'CAT', 'TTA', '---', 'A-T-G', 'C']), gap))
             elif op == 'replace':
                 a, b = rng.choice([('A', 'C'), ('T', 'A'), ('G', 'T'), ('-', 'A'), ('C', '-'), ('TA', 'CC'), ('AT', 'TG')])
+                if gap == '.':
+                    a, b = a.replace('-', '.'), b.replace('-', '.')
                 st.update(a=a, b=b)
             elif op == 'data':
-                st.update(t=_rand_valid_seq(rng, len(s)))
+                st.update(t=_with_gap(rng, _rand_valid_seq(rng, len(s)), gap))
             steps.append(st)
             steps.append({'op': 'find', 'cfg': cfg})
         elif x < 0.80:                                # (d) mutate an earlier result
             steps.append({'op': 'mutate_result', 'how': rng.choice(['pop', 'clear', 'shift', 'rf', 'append', 'strand', 'reverse'])})
             steps.append({'op': 'find', 'cfg': cfg})
         elif x < 0.92:                                # (f) another sequence with the same id and length
-            steps.append({'op': 'other', 's': _rand_valid_seq(rng, len(s)), 'cfg': cfg})
+            steps.append({'op': 'other', 's': _with_gap(rng, _rand_valid_seq(rng, len(s)), gap), 'cfg': cfg})
             steps.append({'op': rng.choice(['find', 'find_fresh']), 'cfg': cfg})
         else:                                         # (e) the same object held twice by a basket
             steps.append({'op': 'basket_twice', 'cfg': cfg})
